@@ -10,6 +10,8 @@ use credx::statement::*;
 use serde_json::{json, Value};
 
 struct View {
+    /// scalar-looking leaves that did not parse (must stay 0: a wrong reading would blind the catalogue)
+    unparsed: usize,
     scalars: Vec<(String, Scalar)>,
     g1: Vec<(String, G1Projective)>,
     g2: Vec<(String, G2Projective)>,
@@ -20,7 +22,7 @@ fn view_of<S: ShortGroupSignatureScheme>(p: &Presentation<S>) -> View {
     let v = serde_json::to_value(p).unwrap();
     let mut ls = vec![];
     leaves(&v, &mut vec![], &mut ls);
-    let mut out = View { scalars: vec![], g1: vec![], g2: vec![], challenge: p.challenge };
+    let mut out = View { unparsed: 0, scalars: vec![], g1: vec![], g2: vec![], challenge: p.challenge };
     for (path, leaf) in ls {
         // disclosed claims (also the proof's own copy of their scalars) are not hidden material
         if path.iter().any(|s| s == "disclosed_messages") {
@@ -29,8 +31,18 @@ fn view_of<S: ShortGroupSignatureScheme>(p: &Presentation<S>) -> View {
         let name = path.join("/");
         match leaf_kind(&leaf) {
             LeafKind::Scalar => {
-                if let Some(s) = sc_from_hex(leaf.as_str().unwrap()) {
-                    out.scalars.push((name, s));
+                // ByteProof scalars are written with `prime_field` (little-endian repr); everything else big-endian
+                let txt = leaf.as_str().unwrap();
+                let parsed = if path.iter().any(|s| s == "byte_proofs") {
+                    let mut b = unhex(txt);
+                    b.reverse();
+                    sc_from_hex(&hexs(&b))
+                } else {
+                    sc_from_hex(txt)
+                };
+                match parsed {
+                    Some(s) => out.scalars.push((name, s)),
+                    None => out.unparsed += 1,
                 }
             }
             LeafKind::G1 => {
@@ -111,6 +123,22 @@ fn distinguishers(view: &View, gens: &[(String, G1Projective)], m0: &Scalar, m1:
             }
         }
     }
+    // T4: a response without a (fresh) nonce: s = ±c·m, or two responses sharing their nonce: s_i - s_j = ±c·m
+    let (cm0, cm1) = (c * *m0, c * *m1);
+    let plain: Vec<&(String, Scalar)> = view.scalars.iter().filter(|(n, _)| !n.contains("byte_proofs")).collect();
+    for (n, s) in &plain {
+        if (*s == cm0) != (*s == cm1) || (*s == -cm0) != (*s == -cm1) {
+            found.push(format!("response-without-nonce:{}", n));
+        }
+    }
+    for (i, (an, a)) in plain.iter().enumerate() {
+        for (bn, b) in plain.iter().skip(i + 1) {
+            let d = *a - *b;
+            if (d == cm0) != (d == cm1) || (d == -cm0) != (d == -cm1) {
+                found.push(format!("responses-share-nonce:{}:{}", an, bn));
+            }
+        }
+    }
     // T3: ratio between two transmitted points
     for (an, a) in &view.g1 {
         for (bn, b) in &view.g1 {
@@ -127,6 +155,27 @@ fn byte_distinguishers(view: &View, m0: &Scalar, m1: &Scalar) -> Vec<String> {
     let c = view.challenge;
     let mut found = vec![];
     let (b0, b1) = (m0.to_be_bytes(), m1.to_be_bytes());
+    // byte responses without a nonce, or sharing one: p_i = c·byte_i, p_i - p_j = c·(byte_i - byte_j)
+    let byte_resp: Vec<(usize, &String, Scalar)> = view
+        .scalars
+        .iter()
+        .filter(|(n, _)| n.contains("byte_proofs") && n.ends_with("message"))
+        .filter_map(|(n, p)| n.split('/').filter_map(|s| s.parse::<usize>().ok()).last().filter(|i| *i < 32).map(|i| (i, n, *p)))
+        .collect();
+    let sb = |b: u8| Scalar::from(b as u64);
+    for (i, n, p) in &byte_resp {
+        if (*p == c * sb(b0[*i])) != (*p == c * sb(b1[*i])) {
+            found.push(format!("byte-response-without-nonce:{}", n));
+        }
+    }
+    for (x, (i, ni, pi)) in byte_resp.iter().enumerate() {
+        for (j, nj, pj) in byte_resp.iter().skip(x + 1) {
+            let d = *pi - *pj;
+            if (d == c * (sb(b0[*i]) - sb(b0[*j]))) != (d == c * (sb(b1[*i]) - sb(b1[*j]))) {
+                found.push(format!("byte-responses-share-nonce:{}:{}", ni, nj));
+            }
+        }
+    }
     for (pn, p) in view.scalars.iter().filter(|(n, _)| n.contains("byte_proofs") && n.ends_with("message")) {
         // index of the byte
         let idx: Option<usize> = pn.split('/').filter_map(|s| s.parse::<usize>().ok()).last();
@@ -205,6 +254,9 @@ fn c07_suite<S: ShortGroupSignatureScheme>(em: &mut Emitter, base: &mut Rng, sui
         em.count(&format!("{}:{}", suite, kind));
         em.count_n("scalars", view.scalars.len() as u64);
         em.count_n("g1-points", view.g1.len() as u64);
+        if view.unparsed > 0 {
+            em.violation("c07:harness-view-unparsed", format!("{}: {} scalar leaves of the presentation did not parse — the distinguisher catalogue would be blind to them", suite, view.unparsed), json!({"suite": suite, "kind": kind}));
+        }
         let mut found = distinguishers(&view, &gens, &m0, &m1);
         found.extend(byte_distinguishers(&view, &m0, &m1));
         // two presentations of the same credential: response difference quotient at equal positions
